@@ -20,6 +20,12 @@ fn main() {
     match args[1].as_str() {
         "reader" => cmd_reader(&job),
         "writer" => cmd_writer(&job),
+        "crash" => {
+            let mut t = Trace::create(job["out"].as_str().unwrap());
+            let runs = vharness::crash::run(&job, &mut t);
+            let lines = t.finish();
+            println!("{}", serde_json::json!({"runs": runs, "events": lines}));
+        }
         "faults" => {
             let mut t = Trace::create(job["out"].as_str().unwrap());
             let runs = vharness::faults::run(&job, &mut t);
